@@ -275,6 +275,13 @@ carquet_status_t carquet_batch_reader_next(
         return batch_reader->failed;
     }
 
+    /* A table without columns (or an empty projection) has nothing a batch
+     * could hold; everything below looks at the first projected column. */
+    if (batch_reader->num_projected == 0) {
+        *batch = NULL;
+        return CARQUET_ERROR_END_OF_DATA;
+    }
+
     /* Check if we need to move to next row group */
     if (batch_reader->current_row_group < 0 ||
         !batch_reader->col_readers[0] ||
